@@ -55,6 +55,7 @@ def hook(cfg, tshim, mode):
             {
                 "angular": bool(remove_angular),
                 "restore": bool(restore_kinetic_energy),
+                "initial": bool(translate_to_origin),
                 "P_rel": float((P.norm(dim=1) / sp.clamp(min=1e-300)).max()),
                 "L_rel": float((L.norm(dim=1) / sl.clamp(min=1e-300)).max()),
                 "dKE_rel": float(((ke1 - ke0).abs() / ke0.clamp(min=1e-300)).max()),
@@ -297,13 +298,15 @@ def _execute(record, root):
         stats["zero_com_calls"] += 1
         worst("zero_com_P_rel", z["P_rel"])
         worst("zero_com_L_rel", z["L_rel"] if z["angular"] else 0.0)
-        worst("zero_com_dKE_rel", z["dKE_rel"] if z["restore"] else 0.0)
+        worst("zero_com_dKE_rel", z["dKE_rel"] if (z["restore"] or not z.get("initial")) else 0.0)
         if z["P_rel"] > tol["mom_rel"]:
             failures.append(core.fail("zero-com-linear", f"after COM removal |P|/sum m|v| = {z['P_rel']:.2e}"))
         if z["angular"] and z["L_rel"] > tol["mom_rel"]:
             failures.append(core.fail("zero-com-angular", f"after angular removal |L|/sum m|v||r| = {z['L_rel']:.2e}"))
-        if z["restore"] and z["dKE_rel"] > tol["ke_rel"]:
-            failures.append(core.fail("zero-com-kinetic-energy", f"COM removal changed the kinetic energy by {z['dKE_rel']:.2e} (relative)"))
+        # periodic removal (the calls made from the run loop) preserves the kinetic energy whatever flag the engine passes
+        # to its helper; the removal inside the initial velocity draw is followed by the exact rescale to Temp
+        if (z["restore"] or not z.get("initial")) and z["dKE_rel"] > tol["ke_rel"]:
+            failures.append(core.fail("zero-com-kinetic-energy", f"{'initial' if z.get('initial') else 'periodic'} COM removal changed the kinetic energy by {z['dKE_rel']:.2e} (relative)"))
         if z["pad_v"] > 0.0:
             failures.append(core.fail("padding-velocity", f"padding atoms have velocity {z['pad_v']:.3e} after COM removal"))
     if rc is not None:
